@@ -50,6 +50,7 @@ SUMMARY = {
     "C12-3": ("coordinator's completion loop rewritten as `while(!done){ wait; check; }`", "workers finish before the coordinator re-acquires the mutex: lost wake-up, hang", "caught (MT-2)"),
     "C14-3": ("`divdiff` returns 0 when the knot span is below FLT_EPSILON", "axis in small absolute units (ns-scale knots in seconds)", "missed at first; UW-6 (no absolute tolerance in the scale-equivariant kernels) added — it also catches C14-1"),
     "C16-3": ("blank-trimming loop in the aux reader tests `value[vlen-1]` instead of `vbegin[vlen-1]`", "unpadded value whose second-to-last character is a blank, then a round trip", "missed at first; KM-2 (one start/length view) added; a correct trim stays silent"),
+    "C08-3": ("`write_fits` wraps `write_fits_core` in try/catch(...) that deletes the file and does not re-raise", "a transient write failure during the bulk coefficient write (4-d/5-d tables)", "missed at first; ED-5 (no handler on the write path absorbs a failure) added"),
     "C20-2": ("`extents[0] = nullptr` removed from the reader", "allocation failure at the 7th request with a non-zero-filling allocator", "caught"),
 }
 try:
